@@ -470,8 +470,8 @@ class PolygonTensor(PolytopeTensor):
         ray_edges = is_multiple(edges._line.array, rays._line.array, atol=EQ_TOL_ABS, rtol=EQ_TOL_REL, axis=-1)
 
         # ignore intersections of downward edges that end on the ray
-        v1 = edges.array[..., 0, :]
-        v2 = edges.array[..., 1, :]
+        v1 = edges.normalized_array[..., 0, :]
+        v2 = edges.normalized_array[..., 1, :]
         v1_intersections = (v1[..., 1] <= v2[..., 1]) & is_multiple(
             intersections.array, v1, atol=EQ_TOL_ABS, rtol=EQ_TOL_REL, axis=-1
         )
